@@ -52,6 +52,11 @@ type wide int64
 
 type flag bool
 
+// package-level state declared (and written) in this plain file only
+var pkgLevel int
+
+func setLevel(n int) { pkgLevel = n }
+
 const kq = 5
 
 func tick(n int) int { return vrt.V(9000+n%7, n) }`
